@@ -67,7 +67,9 @@ impl<'a> Read for FragReader<'a> {
 		let call = self.calls;
 		self.calls += 1;
 		if self.fail_at == Some(call) {
-			return Err(io::Error::new(io::ErrorKind::Other, "injected fault"));
+			// (the kind of the injected error rotates with the call: whatever it is, except `Interrupted`, it must surface)
+			let kind = [io::ErrorKind::Other, io::ErrorKind::WouldBlock, io::ErrorKind::TimedOut, io::ErrorKind::BrokenPipe, io::ErrorKind::ConnectionReset, io::ErrorKind::InvalidData, io::ErrorKind::PermissionDenied][call % 7];
+			return Err(io::Error::new(kind, "injected fault"));
 		}
 		if self.pos >= self.data.len() || buf.is_empty() {
 			return Ok(0);
